@@ -56,3 +56,13 @@ LEVEL_TEXT["C03"] = ("Exploration over schedules: layer A runs the real Trigger/
                      "under the harness-owned scheduler and checks at quiescence - loop parked in epoll_wait with nothing ready - that every accepted request ran exactly once on the loop thread and high-priority requests of a producer ran in issue order; "
                      "layer B drives the engine's asynchronous API from several goroutines with generated scripts and checks exactly-once effects/callbacks and issue order at the peer.")
 LEVEL_NOTE["C03"] = "kqueue pollers cannot execute on Linux; interleavings are sampled (random walk / PCT) and enumerated only up to 2 pre-emptions for the smallest configurations; a bounded-unfairness rule (a thread is passed over after 64 consecutive steps) is needed because the loop legitimately spins while a producer sits between linking a node and publishing the queue length."
+
+LEVEL_TEXT["C01"] = ("Exploration: every case starts a real engine (all I/O modes, 1..8 loops, both acceptor modes, tcp/unix, server and client side, four build-tag sets), connects 1..4 peers with generated segmentations and endings, "
+                     "and runs generated per-callback consumption scripts; the oracle is position-dependent stream content plus the conservation invariant consumed + InboundBuffered, checked after every read operation inside the callbacks, "
+                     "completeness at OnClose after an orderly close, and the stall rule for lock-step delivery. Quantifies over kernel segmentations and schedules that cannot be enumerated: sampling with a sound oracle is the level.")
+LEVEL_NOTE["C01"] = "Real loop-back sockets; read sizes are controlled only through lock-step segments (and the LT read-shortening shim where enabled); liveness is bounded (8 s stall rule, confirmed by re-running the case)."
+
+LEVEL_TEXT["C02"] = ("Exploration: every case starts a real engine with small send buffers / WriteBufferCap values and runs generated batches of Write, Writev (up to 3000 slices), ReadFrom+Flush, AsyncWrite(v) from inside callbacks and from external producer goroutines "
+                     "(including gated producers that build backlogs beyond the 1024-request threshold) against a peer with a generated reading schedule (stalls, trickle reads, 'wait until OutboundBuffered >= x'); "
+                     "oracle: received stream = accepted records in effect order, per-producer issue order of async writes, OutboundBuffered bounds inside every callback and 0 after the drain, stall rule for 'accepted data is eventually sent'.")
+LEVEL_NOTE["C02"] = "Real loop-back sockets; OutboundBuffered is bounded from above by accepted minus bytes already received by the peer (exact equality needs the kernel-side count, which the real-socket harness cannot see); liveness is bounded (8 s, confirmed by re-running the case)."
